@@ -12,64 +12,7 @@ from . import common as C
 from . import persist as P
 
 
-def to_json(w, enc, obj):
-    """json.dump data model: dict keys become strings, unknown objects go through default()."""
-    if obj is None or isinstance(obj, (bool,)):
-        return obj
-    if w.symbolic:
-        from symex.core import SBool, SInt, SStr
-        if isinstance(obj, (SInt, SStr, SBool)):
-            return obj
-    if isinstance(obj, (int, str)):
-        return obj
-    if isinstance(obj, dict):
-        out = {}
-        for k, v in obj.items():
-            if isinstance(k, str) or (w.symbolic and type(k).__name__ == "SStr"):
-                key = k
-            elif k is None or isinstance(k, bool):
-                raise TypeError("unsupported JSON key in the model")
-            else:
-                key = w.call(str, k)
-            out[key] = to_json(w, enc, v)
-        return out
-    if isinstance(obj, (list, tuple, deque)):
-        return [to_json(w, enc, x) for x in obj]
-    return to_json(w, enc, w.call(enc.default, obj))
-
-
-def from_json(w, dec, tree):
-    """json.load data model: object_hook applied bottom-up to every decoded object."""
-    if isinstance(tree, dict):
-        inner = {}
-        for k, v in tree.items():
-            inner[k] = from_json(w, dec, v)
-        return w.call(dec.dict_to_object, inner)
-    if isinstance(tree, list):
-        return [from_json(w, dec, x) for x in tree]
-    return tree
-
-
-def pickled(w, obj, memo=None):
-    """pickle round trip: identity on the object graph modulo __getstate__/__setstate__."""
-    from mysensors.sensor import ChildSensor, Sensor
-    if isinstance(obj, dict):
-        return {k: pickled(w, v) for k, v in obj.items()}
-    if isinstance(obj, deque):
-        return deque(pickled(w, x) for x in obj)
-    if isinstance(obj, (list, tuple)):
-        return type(obj)(pickled(w, x) for x in obj)
-    if isinstance(obj, (Sensor, ChildSensor)):
-        getstate = getattr(type(obj), "__getstate__", None)
-        if "__getstate__" in type(obj).__dict__:
-            state = w.call(obj.__getstate__)
-        else:
-            state = dict(obj.__dict__)
-        state = pickled(w, state)
-        new = type(obj).__new__(type(obj))
-        w.call(new.__setstate__, state)
-        return new
-    return obj
+to_json, from_json, pickled = P.to_json, P.from_json, P.pickled
 
 
 def roundtrip(versions, shapes):
@@ -99,8 +42,14 @@ def roundtrip(versions, shapes):
                 via_pickle = pickled(w, sensors)
             except Exception as exc:
                 w.escaped(exc, "pickle round trip raised")
+            from mysensors.sensor import ChildSensor, Sensor
             for name, got in (("json", via_json), ("pickle", via_pickle)):
                 w.check(isinstance(got, dict), f"{name}: loaded object is not a dict")
+                w.check(all(isinstance(s, Sensor) for s in got.values()),
+                        f"{name}: a restored node is not a Sensor object")
+                w.check(all(isinstance(c, ChildSensor) for s in got.values()
+                            for c in s.__dict__["children"].values()),
+                        f"{name}: a restored child is not a ChildSensor object")
                 w.check(w.eq(P.snapshot(got), want), f"{name}: restored state differs")
                 for s in got.values():
                     d = s.__dict__
